@@ -10,6 +10,7 @@ from ..gen import random_plan, rand_fraction, enc_amount
 from ..models import si_table as SI
 from ..models.world import predefined_world
 from ..oracle import brief
+from ..ops import derived
 
 RULE = ("triples of same-type quantities built to collide: equal across "
         "units, near-ties (+-1e-30 relative), Decimal/Fraction twins, "
@@ -57,7 +58,8 @@ def triple_sub(chk, rng, w, wid, plan=None):
         else:
             kinds = ("D", "F", "int")
         steps.append({"id": names[i], "k": names[i],
-                      "e": Q(enc_amount(rng, x, kinds)[0], s)})
+                      "e": derived(rng, Q(enc_amount(rng, x, kinds)[0], s),
+                                   s)})
     for i in range(3):
         for j in range(3):
             for op in OPS:
